@@ -136,19 +136,26 @@ CHECKS["C15"] = dict(
    design="DESIGN.md §2 C15")
 
 CHECKS["C17"] = dict(
-   text="Theorems about the Lean models of quote.c, token822.c, qmail-remote.c addrmangle, commands.c, qmail-smtpd.c addrparse and qmail-inject.c: for EVERY local part (any bytes) and every sane domain "
+   text="31 theorems about the Lean models of quote.c, token822.c, qmail-remote.c addrmangle, commands.c, qmail-smtpd.c addrparse and qmail-inject.c. Quoting: for EVERY local part (any bytes) and every sane domain "
         "unquote(parse(quote2(local@domain)))=local@domain with token shape word(.word)*@domain; addrparse(<addrmangle a>)=a up to 899 bytes, refused beyond, through one commands() line; the regenerated ok[] table is "
-        "inside atomok/atomcheck (decide over 256 bytes); on comma-separated plain mailboxes token822_addrlist hands each mailbox once, whole, to the callback; rwgeneric implements default host / default domain / plus domain; "
-        "Bcc and Resent-Bcc feed the envelope and never reach the header; the -a/-h/-H/default strategies. Tied to the current source by the translator (ok[], atomok, atomcheck, escape sets, hname[], H_*, LINELEN) and by two "
-        "differential harnesses: H1 runs the real quoting/parsing functions on every local part over a 17-byte alphabet to length 5/6 and every token string over a 15-byte alphabet to length 5/6 plus random long inputs; H2 runs the real "
-        "qmail-inject main in-process with a stand-in queue on headers from an RFC 822 grammar generator (groups, routes, comments, quoted strings, literals, folding, missing commas; expected mailboxes known by construction) x "
-        "flag/strategy/configuration combinations, and injects every produced message a second time. Oracles are evaluated on the implementation's own output.",
-   note=NOTE_COMMON + "Partial: the envelope theorem is proved for the restricted grammar (comma-separated plain mailboxes, token level); groups, angle addresses, routes, white space/comment/folding insensitivity and "
-        "unparse->parse idempotence are covered by correspondence and oracle only. Modelled, not verified: stand-in queue, control files/environment supplied by the harness, fixed clock and pid, ipme list, no NUL in C strings; "
-        "Mail-Followup-To (QMAILMFTFILE) is not exercised. Open finding C17-angle-comment (comment inside <...> defeats route stripping / plus-domain rule) is reported as KNOWN-FINDING.",
-   technique="Lean 4 proof (tokenizer automaton run lemmas, table facts by decide, list induction over the right-to-left parser) + exhaustive/grammar-based differential correspondence with the C code",
+        "inside atomok/atomcheck (decide over 256 bytes). Envelope, from BYTES to the queue: for every legal rendering (a generator-style spec: atoms, quoted strings/literals with any quoted-pairs, nested comments, any white "
+        "space and folds) token822_parse returns exactly the rendered tokens; comment tokens never influence token822_addrlist (any token list); for every address list accepted by a grammar automaton - mailboxes, "
+        "display-name <route-addr>, groups, repeated and missing commas - and for every address-list tree of mailboxes and groups, token822_addrlist succeeds and hands exactly the listed mailboxes, right to left, to the "
+        "callback; a To/Cc/Bcc/Apparently-To (Resent-*) field appends exactly the unquoted rewritten mailboxes to hrlist (hrrlist); for every message on which qmail-inject exits 0 the recipients given to qmail-queue are the "
+        "rewritten arguments and/or the concatenation of the fields' contributions per -a/-h/-H/default; rwgeneric equals the documented string-level rewriting (default host, default domain, plus domain, literal hosts, "
+        "source routes stripped); parse(unparse n ts)=ts for EVERY line length (folding macro included) on clean tokens; Bcc/Resent-Bcc feed the envelope and never reach the header. Tied to the current source by the "
+        "translator (ok[], atomok, atomcheck, escape sets, hname[], H_*, LINELEN) and by two differential harnesses: H1 runs the real quoting/parsing functions on every local part over a 17-byte alphabet to length 5/6 and "
+        "every token string over a 15-byte alphabet to length 5/6 plus random long inputs and grammar-generated lists, re-renders the tokens the real parser returned (random folds, quoted-pairs, nested comments) and parses "
+        "them again, and runs token822_addrlist a second time without the comment tokens; H2 runs the real qmail-inject main in-process with a stand-in queue on headers from an RFC 822 grammar generator (groups, routes, "
+        "comments, quoted strings, literals, folding, missing commas; expected mailboxes known by construction) x flag/strategy/configuration combinations, and injects every produced message a second time. "
+        "Oracles (the theorems' predicates) are evaluated on the implementation's own output.",
+   note=NOTE_COMMON + "Partial: that the rewritten header, parsed AGAIN by token822_addrlist, yields the same addresses is proved only up to tokens (parse(unparse out)=out); the second address-list pass is covered by "
+        "the second-injection oracle only. The grammar automaton is sufficient, not a characterisation of everything the code accepts; headerbody's line splitting is tied by correspondence only. Modelled, not "
+        "verified: stand-in queue, control files/environment supplied by the harness, fixed clock and pid, ipme list, no NUL in C strings; Mail-Followup-To (QMAILMFTFILE) is not exercised. Finding C17-angle-comment "
+        "(comment inside <...> defeated route stripping / plus-domain rule) was repaired in /repo (a66f18c); the pre-fix code is detected as a violation, and C17_comments_ignored is false for it.",
+   technique="Lean 4 proof (tokenizer transducer run lemmas and a fold invariant for unparse, table facts by decide, simulation 'same but taout' for comments, abstract edge automaton for the right-to-left parser, "
+        "list induction over header fields) + exhaustive/grammar-based differential correspondence with the C code",
    design="DESIGN.md §2 C17")
-
 CHECKS["C18"] = dict(
    text="Theorems over ALL request strings / command streams / report streams and ALL system-call outcomes about Lean models of qmail-clean.c main, "
         "spawn.c getcmd/docmd/main with the report() of qmail-lspawn.c and qmail-rspawn.c, and qmail-send.c del_dochan: qmail-clean answers every request with exactly one "
